@@ -23,7 +23,8 @@ class VLoop(asyncio.SelectorEventLoop):
         self._clock_resolution = 2e-10
         self.vt = 0.0
         self.steps = 0
-        self.max_steps = 120_000
+        self.max_steps = 60_000
+        self._last_vt, self._steps_at_vt = -1.0, 0
         self.step_hook = None
 
     def time(self):
@@ -34,10 +35,13 @@ class VLoop(asyncio.SelectorEventLoop):
 
     def _run_once(self):
         self.steps += 1
-        if self.steps > self.max_steps:
-            # no simulation of the sizes generated here needs this many loop iterations: something keeps
-            # itself busy without (virtual) time passing
-            raise Deadlock("livelock: %d event-loop iterations" % self.steps)
+        if self.vt != self._last_vt:
+            self._last_vt, self._steps_at_vt = self.vt, 0
+        self._steps_at_vt += 1
+        if self._steps_at_vt > self.max_steps:
+            # no simulation of the sizes generated here needs this many loop iterations at one instant:
+            # something keeps itself busy without (virtual) time passing
+            raise Deadlock("livelock: %d event-loop iterations without time passing" % self._steps_at_vt)
         if self.step_hook is not None:
             self.step_hook(self)
         if not self._ready:
